@@ -213,11 +213,13 @@ type Env struct {
 	Stats    *StatsObserver
 	Observer bool
 
-	CheckAlloc bool // C04 ownership oracle on every returned id
-	ReadCheck  bool // verify all live pages after every transaction end
-	Ops        int
-	Dead       bool // instance unusable (engine stops applying ops)
-	LastOpLog  int  // disk log length before the most recent operation (set by the replayer)
+	CheckAlloc   bool // C04 ownership oracle on every returned id
+	ReadCheck    bool // verify all live pages after every transaction end
+	Ops          int
+	Dead         bool  // instance unusable (engine stops applying ops)
+	ExtentCap    int64 // after a shrink: max(previous extent, new limit); 0 = no promise active
+	OverflowUsed bool  // an overflow-enabled transaction ran since
+	LastOpLog    int   // disk log length before the most recent operation (set by the replayer)
 }
 
 // StatsObserver records what the library reports to an Observer.
